@@ -5,6 +5,8 @@
 //!         emode_tag n_em (tag flags wi wm)*n_em
 //!   ops : 0 t | 1 a b amt up_to | 2 a b amt all | 3 a b amt | 4 a b amt all | 7 a b | 10 b | 16 b
 //!         | 17 liqor liqee ab lb amt | 18 a b | 19 b price
+//!         | 20 a (fixture: the group's risk admin becomes the authority of account a; 255 = the admin again)
+//!         | 21 b flags (fixture: bank flags word := flags)
 //! out : per op `<res> # <bank dumps ';'-separated> # <account dumps ';'-separated>` joined by " | "
 use crate::sim::*;
 use crate::suites::bankops::{bank_pk, dump_bank, dump_la, parse_bank};
@@ -305,6 +307,18 @@ fn run_inner(line: &str, with_ref: bool) -> String {
                 let b = t.usize();
                 let p: I80F48 = t.fx();
                 h.w.update::<Bank>(&h.banks[b], |bk| bk.config.fixed_price = p.into());
+                Ok(())
+            }
+            20 => {
+                let a = t.usize();
+                let key = if a < h.auths.len() { h.auths[a] } else { h.admin };
+                h.w.update::<MarginfiGroup>(&group, |g| g.risk_admin = key);
+                Ok(())
+            }
+            21 => {
+                let b = t.usize();
+                let fl = t.u64();
+                h.w.update::<Bank>(&h.banks[b], |bk| bk.flags = fl);
                 Ok(())
             }
             _ => panic!("bad op"),
